@@ -74,7 +74,8 @@ def gen_keys(rng, uni, dims, k0, with_lists):
 
 def generate(tier, rng):
     cases = []
-    unis = [mk_universe((3, 2, 3), "abc"), mk_universe((2, 2, 2), "abc")]
+    unis = [mk_universe((3, 2, 3), "abc"), mk_universe((2, 2, 2), "abc"),
+            mk_universe((2, 2, 3), "abc", int_dims=("a",), falsy=True)]      # items 0 and "" (false in a boolean context)
     if tier == "thorough":
         unis.append(mk_universe((2, 3, 2, 2), "abcd"))
     lay = ["C", "F", "V"]
